@@ -426,7 +426,7 @@ func c09RunScenario(c *c09Case) *c09Obs {
 				// the callers of one proxy leave at the same instant, the groups one after the other so that a group really
 				// runs in parallel
 				at := goAt.Add(time.Duration((k%len(sps))*c.StaggerUs) * time.Microsecond)
-				if d := time.Until(at) - 300*time.Microsecond; d > 0 {
+				if d := time.Until(at) - 150*time.Microsecond; d > 0 {
 					time.Sleep(d)
 				}
 				for time.Now().Before(at) {
@@ -1281,20 +1281,7 @@ func c09Gen(tier string, rng *rand.Rand) []c09Case {
 		// ... and at the transport level, where the callers of one client really collide on connLock and on the one free slot:
 		// many clients, each with its send goroutine stuck in conn.Write, two or three callers per client leave together; every
 		// Send returns within DialTimeout + WriteTimeout (monitor only)
-		for i := 0; i < 2; i++ {
-			c = base("transport-send-race", "transport-race", []c09Act{{Do: "none"}})
-			c.DialMs = 200
-			c.WriteMs = 500
-			c.TimeoutMs = c.WriteMs // the bound checked is dial bound + write timeout + slack
-			c.QueueLen = 1
-			c.Proxies = pick(48, 64)
-			c.Callers = c.Proxies * pick(2, 3)
-			c.StaggerUs = 1000
-			c.ReqSize = 5 << 20
-			c.SmallBuf = true
-			c.Predict = false
-			cs = append(cs, c)
-		}
+		cs = append(cs, c09TransportRaceCase(base, pick))
 		// ---- effective timeout zero or negative, set on the proxy or per call, with and without a caller deadline, silent and
 		// slow peers: a deadline that has passed at the start gives the timeout error at once; a caller deadline still wins
 		for _, v := range []int{0, pick(-1, -50)} {
@@ -1417,6 +1404,8 @@ func c09Gen(tier string, rng *rand.Rand) []c09Case {
 		c.Callers = pick(2, 6)
 		cs = append(cs, c)
 	}
+	// a second instance, away from the first in the schedule (two of them at once load the machine needlessly)
+	cs = append(cs, c09TransportRaceCase(base, pick))
 	for i := range cs {
 		cs[i].Procs = pick(0, 0, 0, 1, 2, 4)
 		if strings.HasPrefix(cs[i].Name, "send-queue-race") || strings.HasPrefix(cs[i].Name, "transport-send-race") {
@@ -1424,6 +1413,20 @@ func c09Gen(tier string, rng *rand.Rand) []c09Case {
 		}
 	}
 	return cs
+}
+
+func c09TransportRaceCase(base func(name, conn string, acts []c09Act) c09Case, pick func(l ...int) int) c09Case {
+	c := base("transport-send-race", "transport-race", []c09Act{{Do: "none"}})
+	c.DialMs = 300
+	c.WriteMs = 500
+	c.TimeoutMs = c.WriteMs + 1000 // the bound checked: dial bound + write timeout + 1 s (the 8 MB writes of many clients can stall a loaded machine) + slack; a Send that lost the race never returns
+	c.QueueLen = 1
+	c.Proxies = pick(40, 48)
+	c.Callers = c.Proxies * pick(2, 3)
+	c.StaggerUs = 1000
+	c.ReqSize = 8 << 20 // past what the socket buffers of a peer that does not read take
+	c.Predict = false
+	return c
 }
 
 func c09Class(c *c09Case) string {
